@@ -19,11 +19,12 @@
            of every DETECTOR / OBSERVABLE_INCLUDE in that order, the detector coordinates (qubit, round) -- i.e. also the
            SHIFT_COORDS arithmetic through the REPEAT blocks -- and the observable index.
      gate_part p = p without DETECTOR / OBSERVABLE_INCLUDE.
+     exec = C09's product-state semantics (record, detector parities, observables); protocol_record = C09's protocol on bits.
    NOT compared (not recoverable from LibBuild's programs): which record entries each detector / observable names.  That
    part of `rep_stim` remains tied to the implementation by C09's correspondence run only. *)
 From Coq Require Import ZArith List Bool.
 Import ListNotations.
-From QCE Require Import Base.Prelude Core.Model Core.Run C08.Model C09.Stim C09.Model LibBuild.Model LibBuild.Cert
+From QCE Require Import Base.Prelude Core.Model Core.Run C08.Model C09.Stim C09.Spec C09.Sem C09.Model LibBuild.Model LibBuild.Cert
   LibBuild.StimBridge LibBuild.StimBridgeProofs LibBuild.StimBridgeCycles.
 Open Scope Z_scope.
 
@@ -59,6 +60,15 @@ Theorem LibStim_chain_export_gates_bounded : forall d rf init anc cycles,
 Proof. exact chain_export_gates. Qed.
 Print Assumptions LibStim_chain_export_gates_bounded.
 
+(* C09_chain_record carried over to the model chain: executing the gates, resets and measurements of the export of the model
+   circuit (no annotations: no detector parities, no observable) gives exactly the protocol's measurement record *)
+Theorem LibStim_chain_export_record_bounded : forall d rf init anc cycles,
+  In d [2; 3; 4]%nat -> List.length init = d -> anc = [] \/ anc = repeat true (d - 1) -> 0 <= cycles <= 6 ->
+  exec (gate_part (lib_export (desc_of_chain d rf) init anc cycles))
+  = Some (protocol_record init anc (Z.to_nat cycles) rf, [], []).
+Proof. exact chain_export_record_bounded. Qed.
+Print Assumptions LibStim_chain_export_record_bounded.
+
 (* what `skeleton` keeps: position by position two programs with equal skeletons differ at most in the rec targets of a
    DETECTOR or of an OBSERVABLE_INCLUDE *)
 Theorem LibStim_skeleton_pointwise : forall p q, skeleton p = skeleton q ->
@@ -71,8 +81,9 @@ Print Assumptions LibStim_skeleton_pointwise.
         sub-circuit is cycles - 3, and from 2^64 on Stim refuses it and the exporter raises
         (StimBridgeCycles.all_cycles_bound_sharp).  Induction on the count of the second sub-circuit over
         LibBuild_qec_split_bulk and C08_stim_in_order; per state, the listing tree and the blocks are evaluated by the VM with the
-        count and the round number as free variables.  As constructed only: after apply_modifiers the statement cannot hold for
-        every cycle count (the listing is truncated at the documented depth limit, C02/C06). *)
+        count and the round number as free variables.  As constructed only: the unrolled circuit is not computed for a symbolic
+        count, and beyond the documented depth limit of the listing (C02/C06, `size_cond`) its listing is truncated, so the
+        unrolled statement could hold only up to that limit; it is proved for 0..6 cycles above. *)
 Theorem LibStim_chain2_export_all_cycles : forall rf init anc cycles, 0 <= cycles < two64 + 3 ->
   lib_export_opt (desc_of_chain 2 rf) init anc cycles = Some (lib_export (desc_of_chain 2 rf) init anc cycles)
   /\ skeleton (lib_export (desc_of_chain 2 rf) init anc cycles)
@@ -86,3 +97,24 @@ Theorem LibStim_chain3_export_all_cycles : forall rf init anc cycles, 0 <= cycle
      = skeleton (rep_stim (desc_of_chain 3 rf) init anc (Z.to_nat cycles)).
 Proof. exact chain3_all_cycles. Qed.
 Print Assumptions LibStim_chain3_export_all_cycles.
+
+(* the record for every cycle count (data state of the right length, at most one value per ancilla: C09's hypotheses) *)
+Theorem LibStim_chain2_record_all_cycles : forall rf init anc cycles,
+  List.length init = 2%nat -> (List.length anc <= 1)%nat -> 0 <= cycles < two64 + 3 ->
+  exec (gate_part (lib_export (desc_of_chain 2 rf) init anc cycles))
+  = Some (protocol_record init anc (Z.to_nat cycles) rf, [], []).
+Proof. exact chain2_record_all_cycles. Qed.
+Print Assumptions LibStim_chain2_record_all_cycles.
+
+Theorem LibStim_chain3_record_all_cycles : forall rf init anc cycles,
+  List.length init = 3%nat -> (List.length anc <= 2)%nat -> 0 <= cycles < two64 + 3 ->
+  exec (gate_part (lib_export (desc_of_chain 3 rf) init anc cycles))
+  = Some (protocol_record init anc (Z.to_nat cycles) rf, [], []).
+Proof. exact chain3_record_all_cycles. Qed.
+Print Assumptions LibStim_chain3_record_all_cycles.
+
+(* `lib_export` is written with the duration environment env0; as constructed, every environment gives the same export *)
+Theorem LibStim_export_env_indep : forall env D init anc cycles,
+  export_nodes_c09 (run_prog env (rep_code_prog D init anc cycles)) = lib_export_opt D init anc cycles.
+Proof. exact lib_export_env_indep. Qed.
+Print Assumptions LibStim_export_env_indep.
